@@ -6,6 +6,7 @@ from n2sa.facts import callee_of, norm
 from . import common as C
 from . import accessors as ACC
 from . import C13 as R13
+from . import C11 as R11
 
 EXPLANATION = (
     "Static conformance of the lexer's byte classes and of the role plumbing from parser to graph on rustc MIR of the current tree: (byte-classes) for every "
@@ -361,6 +362,8 @@ def run(ck, ctx):
     attr_tables(ck, ctx)
     statements(ck, ctx)
     R13.wrapper(ck, ctx)
+    # "the declared command, description, depfile, rspfile": rule attributes are expanded against $in/$out first, then the build block, then the file
+    R11.chains(ck, ctx)
 
 
 def run_config(ck, ctx):
